@@ -371,3 +371,72 @@ Theorem canonb_spec t : canonb t = true <-> CANON t.
 Proof. split; [apply (canonb_sound (depth t) t (le_n _))|apply canonb_complete]. Qed.
 
 End Canonb.
+
+(* ---------- the same for a root: a sound boolean checker for RootCanon ---------- *)
+From AV Require Import Spec.Versions Xml.RoundTripFile.
+
+Section RootCanonb.
+Variable T : tables.
+Variable tab_el tab_at tab_en : nametab.
+Variable check_fn : N -> list N -> res bool.
+Variable float_fmt : N -> list N.
+Variable float_parse : list N -> option N.
+Variable ver : N.
+
+Definition dummy_state : pstate :=
+  {| p_lex := {| l_rest := []; l_line := 1; l_deferred := None |}; p_line := 1; p_version := 0; p_cur := 0; p_compat := 0;
+     p_warnings := []; p_standalone := None; p_idents := []; p_refs := [] |}.
+
+(* the header attributes yield `ver` silently (evaluated strictly on one state; by pfh_indep that is every state, both modes) *)
+Definition headerb (attrs : list (N * cdata)) : bool :=
+  match parse_file_header true tab_at attrs dummy_state with
+  | Val (Ret _ st') => p_version st' =? ver
+  | _ => false
+  end.
+
+Definition rootcanonb (t : etree) : bool :=
+  match t, elem T (autosar_element T), version_of_ident "Autosar_4_0_1" with
+  | ENode name ty attrs content cm, Val e, Some v401 =>
+    (name =? ed_name e) && etype_eqb ty (autosar_element T, ed_type e) &&
+    comments_okb cm && elem_nameb tab_el name &&
+    attrsokb T tab_at tab_en check_fn float_fmt float_parse v401 ty attrs && headerb attrs &&
+    match content_mode T ty with
+    | Val mode =>
+      shapeb mode content && namedb T ver ty content &&
+      childrenb_gen T tab_en check_fn float_fmt float_parse ver
+        (canonb T tab_el tab_at tab_en check_fn float_fmt float_parse ver) ty mode [] [] content
+    | _ => false
+    end
+  | _, _, _ => false
+  end.
+
+Theorem rootcanonb_sound t : rootcanonb t = true ->
+  forall s, RootCanon s T tab_el tab_at tab_en check_fn float_fmt float_parse ver t.
+Proof.
+  unfold rootcanonb. destruct t as [name ty attrs content cm].
+  destruct (elem T (autosar_element T)) as [e| |] eqn:EE; try discriminate.
+  destruct (version_of_ident "Autosar_4_0_1") as [v401|] eqn:V401; try discriminate.
+  rewrite !andb_true_iff. intros [[[[[[A B] C] D] E] F] G] s.
+  apply N.eqb_eq in A. apply etype_eqb_spec in B. subst name ty.
+  destruct (content_mode T (autosar_element T, ed_type e)) as [mode| |] eqn:CM; try discriminate G.
+  rewrite !andb_true_iff in G. destruct G as [[G1 G2] G3].
+  apply elem_nameb_spec in D as (nm & EN). apply namedb_spec in G2 as (named & NV & NM).
+  unfold headerb in F. destruct (parse_file_header true tab_at attrs dummy_state) as [[u st'|? ?]| |] eqn:PF; try discriminate F.
+  destruct (pfh_indep tab_at attrs _ _ _ PF) as (v & -> & HDR). cbn [p_version Parser.set_version] in F. apply N.eqb_eq in F. subst v.
+  apply (root_canon s T tab_el tab_at tab_en check_fn float_fmt float_parse ver e v401 nm attrs content cm mode named).
+  - exact EE.
+  - exact V401.
+  - apply comments_okb_spec. exact C.
+  - exact EN.
+  - apply attrsokb_spec. exact E.
+  - intros st2. apply HDR.
+  - exact CM.
+  - apply shapeb_spec. exact G1.
+  - apply (childrenb_sound T tab_el tab_at tab_en check_fn float_fmt float_parse ver (maxd content) _ mode
+             (fun c D0 H0 => canonb_sound T tab_el tab_at tab_en check_fn float_fmt float_parse ver (maxd content) c D0 H0));
+      [|exact G3]. intros c HIn. apply maxd_in. exact HIn.
+  - exact NV.
+  - exact NM.
+Qed.
+
+End RootCanonb.
